@@ -64,8 +64,18 @@ var (
 
 func serverStart() {
 	srvOnce.Do(func() {
-		ln, err := net.Listen("tcp", "127.0.0.1:0")
-		if err != nil {
+		// A fixed port below the ephemeral range: when many tests on the machine leave the ephemeral
+		// range full of TIME_WAIT sockets, bind(0) fails while connects to a fresh 4-tuple still work.
+		var ln net.Listener
+		var err error
+		for i := 0; i < 200 && ln == nil; i++ {
+			port := 10000 + (os.Getpid()*7+i*131)%20000
+			ln, err = net.Listen("tcp", "127.0.0.1:"+strconv.Itoa(port))
+		}
+		if ln == nil {
+			ln, err = net.Listen("tcp", "127.0.0.1:0")
+		}
+		if ln == nil {
 			infra("cannot listen on loopback: %v", err)
 		}
 		srvAddr = ln.Addr().String()
@@ -256,6 +266,11 @@ func runDesync(dir string, args []string, st *srvState, wantKill bool) (res proc
 		infra("wait for desync: %v", werr)
 	}
 	res.Stderr = se.String()
+	for _, m := range []string{"cannot assign requested address", "address already in use", "too many open files"} {
+		if strings.Contains(res.Stderr, m) {
+			infra("desync could not reach the harness server (machine out of sockets?): %s", tail(res.Stderr, 400))
+		}
+	}
 	return res, killed
 }
 
